@@ -216,17 +216,17 @@ impl<const N: usize> Zeroize for [u8; N] {
 pub trait ZeroizeOnDrop {}
 
 /// zeroize::Zeroizing<Vec<u8>>: a wrapper that derefs to the vector (and zeroizes it when dropped)
-pub struct Zeroizing { pub v: Vec<u8> }
-impl Zeroizing {
+pub struct Zeroizing<T> { pub v: T }
+impl Zeroizing<Vec<u8>> {
     pub open spec fn view(&self) -> Seq<u8> { self.v@ }
-    pub fn new(v: Vec<u8>) -> (r: Zeroizing)
+    pub fn new(v: Vec<u8>) -> (r: Zeroizing<Vec<u8>>)
         ensures r@ == v@
     { Zeroizing { v } }
     pub fn as_ref(&self) -> (r: &[u8])
         ensures r@ == self@
     { self.v.as_slice() }
 }
-impl core::ops::Deref for Zeroizing {
+impl core::ops::Deref for Zeroizing<Vec<u8>> {
     type Target = Vec<u8>;
     fn deref(&self) -> (r: &Vec<u8>)
         ensures r@ == self@
